@@ -18,6 +18,7 @@
 #include "jls/cdef.h"
 #include "jls/ec.h"
 #include "jls/log.h"
+#include <stdint.h>
 #include <stdlib.h>
 #include <string.h>
 
@@ -92,12 +93,26 @@ int32_t jls_buf_realloc(struct jls_buf_s * self, size_t size) {
         alloc_size *= 2;
     }
 
+    // cur and end point into the buffer: keep their offsets across the move
+    const uintptr_t start_u = (uintptr_t) self->start;
+    const uintptr_t cur_u = (uintptr_t) self->cur;
+    const uintptr_t end_u = (uintptr_t) self->end;
+    const int cur_valid = (cur_u >= start_u) && (cur_u <= (start_u + self->alloc_size));
+    const int end_valid = (end_u >= start_u) && (end_u <= (start_u + self->alloc_size));
+    const size_t cur_offset = cur_valid ? (size_t) (cur_u - start_u) : 0;
+    const size_t end_offset = end_valid ? (size_t) (end_u - start_u) : 0;
     uint8_t * ptr = realloc(self->start, alloc_size);
     if (NULL == ptr) {
         JLS_LOGE("jls_buf_realloc out of memory");
         return JLS_ERROR_NOT_ENOUGH_MEMORY;
     }
     self->start = ptr;
+    if (cur_valid) {
+        self->cur = ptr + cur_offset;
+    }
+    if (end_valid) {
+        self->end = ptr + end_offset;
+    }
     self->alloc_size = alloc_size;
     return 0;
 }
